@@ -628,6 +628,11 @@ class ExprMixin:
             if isinstance(base, Ref) and isinstance(self.path.cell(base), ObjCell):
                 raise Unsupported("slicing an object")
             raise Unsupported(f"slice of {base!r}")
+        if getattr(self, "spec_depth", 0) > 0 or getattr(self, "pure_depth", 0) > 0:
+            # specification context: bounds are the spec's responsibility, no clamping (canonical terms)
+            neg = lambda v: isinstance(v, int) and v < 0
+            if not neg(lo) and not neg(hi):
+                return self.box_seq(seqops.subseq(seq, 0 if lo is None else lo, seqops.length(seq) if hi is None else hi))
         return self.box_seq(seqops.slice_(seq, lo, hi))
 
     def get_item(self, base, idx):
